@@ -1809,8 +1809,7 @@ func ruleBetweenOrder(p *Prog, r *Result) {
 			if !ok || len(c.Call.Args) != 3 {
 				return
 			}
-			g := c.Call.StaticCallee()
-			if g == nil || !p.InPkg(g) || g.Signature.Recv() != nil || !strings.Contains(g.Name(), "Compare") {
+			if !isCompareHelperCall(p, c) {
 				return
 			}
 			if isLeftDerived(c.Call.Args[0]) || isLeftDerived(c.Call.Args[1]) {
@@ -2790,51 +2789,75 @@ func ruleReorderKind(p *Prog, r *Result) {
 	n := 0
 	for _, fn := range p.methodsOf(t) {
 		idx := 0
-		allInstrs(fn, func(in ssa.Instruction) {
-			st, ok := in.(*ssa.Store)
-			if !ok {
-				return
-			}
-			o, fl, base, ok := fieldOfAddr(st.Addr)
-			if !ok || o == nil || o.Obj().Name() != "BinaryOpExpr" || fl != "Right" {
-				return
-			}
-			if _, isParam := cellRoot(base).(*ssa.Parameter); !isParam {
-				return
-			}
-			fresh := false
-			if mi, ok := st.Val.(*ssa.MakeInterface); ok {
-				if al, ok := mi.X.(*ssa.Alloc); ok && typeName(deref(al.Type())) == "BinaryOpExpr" {
-					fresh = true
-				}
-			}
-			if !fresh {
-				return
-			}
-			n++
-			idx++
-			msg := "no guard on the kinds of the two constants dominates the rewrite"
-			for _, a := range dominatingAtoms(st.Block()) {
-				c, ok := a.X.(*ssa.Call)
+		handle := func(f *ssa.Function, ctxOf func(*ssa.Store) []*ssa.BasicBlock) {
+			allInstrs(f, func(in ssa.Instruction) {
+				st, ok := in.(*ssa.Store)
 				if !ok {
-					continue
+					return
 				}
-				bv, isB := constBool(a.Y)
-				if !isB || ((a.Op == token.EQL) == bv) == false {
-					continue
+				o, fl, base, ok := fieldOfAddr(st.Addr)
+				if !ok || o == nil || o.Obj().Name() != "BinaryOpExpr" || fl != "Right" {
+					return
 				}
-				g := c.Call.StaticCallee()
-				if g == nil || !p.InPkg(g) {
-					continue
+				if _, isParam := cellRoot(base).(*ssa.Parameter); !isParam {
+					return
 				}
-				if m := checkGuard(g); m == "" {
-					msg = ""
-				} else if msg != "" {
-					msg = m
+				fresh := false
+				if mi, ok := st.Val.(*ssa.MakeInterface); ok {
+					if al, ok := mi.X.(*ssa.Alloc); ok && typeName(deref(al.Type())) == "BinaryOpExpr" {
+						fresh = true
+					}
 				}
-			}
-			r.add(msg == "", fmt.Sprintf("%s|rewrite#%d", p.FName(fn), idx), p.InstrPos(st), firstNonEmpty(msg, "the rewrite is made only for two texts or two integer constants"))
-		})
+				if !fresh {
+					return
+				}
+				n++
+				idx++
+				msg := ""
+				blocks := ctxOf(st)
+				if len(blocks) == 0 {
+					msg = "the rewrite sits in a local function that is never called"
+				}
+				for _, cb := range blocks {
+					m1 := "no guard on the kinds of the two constants dominates the rewrite"
+					for _, a := range dominatingAtoms(cb) {
+						c, ok := a.X.(*ssa.Call)
+						if !ok {
+							continue
+						}
+						bv, isB := constBool(a.Y)
+						if !isB || ((a.Op == token.EQL) == bv) == false {
+							continue
+						}
+						g := c.Call.StaticCallee()
+						if g == nil || !p.InPkg(g) {
+							continue
+						}
+						if m := checkGuard(g); m == "" {
+							m1 = ""
+						} else if m1 != "" {
+							m1 = m
+						}
+					}
+					if m1 != "" {
+						msg = m1
+					}
+				}
+				r.add(msg == "", fmt.Sprintf("%s|rewrite#%d", p.FName(fn), idx), p.InstrPos(st), firstNonEmpty(msg, "the rewrite is made only for two texts or two integer constants"))
+			})
+		}
+		handle(fn, func(st *ssa.Store) []*ssa.BasicBlock { return []*ssa.BasicBlock{st.Block()} })
+		for _, af := range fn.AnonFuncs {
+			var sites []*ssa.BasicBlock
+			allInstrs(fn, func(in ssa.Instruction) {
+				if c, ok := in.(ssa.CallInstruction); ok {
+					if mc, ok := c.Common().Value.(*ssa.MakeClosure); ok && mc.Fn == ssa.Value(af) {
+						sites = append(sites, in.Block())
+					}
+				}
+			})
+			handle(af, func(*ssa.Store) []*ssa.BasicBlock { return sites })
+		}
 	}
 	r.floor("re-association sites", n, 1)
 }
@@ -2929,8 +2952,7 @@ func ruleTwinErr(p *Prog, r *Result) {
 				if !ok {
 					return
 				}
-				g := c.Call.StaticCallee()
-				if g == nil || !p.InPkg(g) || g.Signature.Recv() != nil || !strings.Contains(g.Name(), "Compare") {
+				if !isCompareHelperCall(p, c) {
 					return
 				}
 				e := extractOf(c, 1)
@@ -2989,4 +3011,56 @@ func ruleTwinErr(p *Prog, r *Result) {
 		}
 	}
 	r.floor("operator twins calling comparison helpers", n, 4)
+}
+
+
+// isCompareHelperCall: a call of a package-level exec*Compare function, directly or through a function value that
+// can only hold such functions (`compare := execStringCompare; if number { compare = execNumberCompare }`).
+func isCompareHelperCall(p *Prog, c *ssa.Call) bool {
+	isCmp := func(g *ssa.Function) bool {
+		return g != nil && p.InPkg(g) && g.Signature.Recv() == nil && strings.Contains(g.Name(), "Compare")
+	}
+	if g := c.Call.StaticCallee(); g != nil {
+		if isCmp(g) {
+			return true
+		}
+		// a wrapper that only hands on the results of comparison helpers
+		if p.InPkg(g) && g.Signature.Recv() == nil {
+			fw := forwardedCallees(p, g)
+			if len(fw) == 0 {
+				return false
+			}
+			for _, nm := range fw {
+				if !strings.Contains(nm, "Compare") {
+					return false
+				}
+			}
+			return true
+		}
+		return false
+	}
+	if c.Call.IsInvoke() {
+		return false
+	}
+	var all func(v ssa.Value, d int) bool
+	all = func(v ssa.Value, d int) bool {
+		if d > 4 {
+			return false
+		}
+		switch x := v.(type) {
+		case *ssa.Function:
+			return isCmp(x)
+		case *ssa.Phi:
+			for _, e := range x.Edges {
+				if !all(e, d+1) {
+					return false
+				}
+			}
+			return len(x.Edges) > 0
+		case *ssa.ChangeType:
+			return all(x.X, d+1)
+		}
+		return false
+	}
+	return all(c.Call.Value, 0)
 }
